@@ -23,7 +23,7 @@
 (*  stmt     cond [c, t, e, he] | otherwise [t] | expr [e] | del [m, idx]  *)
 (*           | delafter [m, idx, h] | deco [name, t] | next | stop         *)
 (*  expr     int [v] | float [v = <<num,den>>] | str [v] | cap [p, g]      *)
-(*           | var [m, idx] | bin [op, l, r] | pat [p] | smatch [l, s, a, neg] *)
+(*           | var [m, idx] | bin [op, l, r] | pat [p] | smatch [l, s, a, neg] | pmatch [l, p] *)
 (*           | assign/addassign [m, idx, r] | inc/dec [m, idx]             *)
 (*           | call [f, args]                                              *)
 (* Strings are sequences of one-character strings; a line is a sequence of *)
@@ -234,6 +234,10 @@ SetV(st, name, labels, v) ==
   LET i == FindLV(st.m[name], labels) IN
   [st EXCEPT !.m[name][i].v = v, !.m[name][i].t = Stamp(st)]
 
+\* capture storage is per match site (every regular expression occurrence has its own slot in the VM); a pattern
+\* condition uses its pattern number as slot (the same text on the same line always matches the same way), a
+\* `=~` site has a slot of its own because it may be skipped by a short-circuit
+CapsAt(st, slot) == IF slot \in DOMAIN st.caps THEN st.caps[slot] ELSE [ok |-> FALSE, c |-> <<>>]
 Fail(st)  == [st EXCEPT !.err = TRUE]
 R(v, st)  == [v |-> v, st |-> st]
 Dead(st)  == st.err \/ st.stop \/ st.ovf
@@ -296,7 +300,7 @@ Eval(P, e, st) ==
     [] e.n = "float" -> R(RatV(e.v[1], e.v[2]), st)
     [] e.n = "str"   -> R(StrV(e.v), st)
     [] e.n = "cap"   ->
-         LET c == st.caps[e.p] IN
+         LET c == CapsAt(st, e.slot) IN          \* slot = the match SITE the reference is bound to
          IF ~c.ok \/ Len(c.c) < e.g THEN R(Null, Fail(st))           \* capture of a pattern that did not match
          ELSE LET tok == c.c[e.g]  k == P.pats[e.p].caps[e.g].k IN
               IF k = "d" THEN LET p == ParseIntB(tok, 10) IN
@@ -310,7 +314,15 @@ Eval(P, e, st) ==
          ELSE LET s1 == Touch(P, ls.st, e.m, ls.v) IN R(GetV(s1, e.m, ls.v), s1)
     [] e.n = "pat"   ->
          LET r == Match(P.pats[e.p], st.line) IN
-         R(BoolV(r.ok), [st EXCEPT !.caps[e.p] = [ok |-> r.ok, c |-> r.caps]])
+         R(BoolV(r.ok), [st EXCEPT !.caps = (e.p :> [ok |-> r.ok, c |-> r.caps]) @@ @])
+    [] e.n = "pmatch" ->     \* l =~ /pattern p/ : the pattern is applied to the string as a one-token line; its captures are
+                             \* recorded for the block (and NOT recorded when a short-circuit skips this expression)
+         LET a == Eval(P, e.l, st) IN
+         IF Dead(a.st) THEN a
+         ELSE LET str == ToStr(a.v)
+                  r == Match(P.pats[e.p], IF str = <<>> THEN <<>> ELSE <<str>>)
+              IN IF StrBad(str) THEN R(Null, [a.st EXCEPT !.ovf = TRUE])
+                 ELSE R(BoolV(r.ok), [a.st EXCEPT !.caps = (e.slot :> [ok |-> r.ok, c |-> r.caps]) @@ @])
     [] e.n = "smatch" ->     \* l =~ /s/  or  l !~ /s/ ; the regex is a quoted literal, optionally anchored at ^
          LET a == Eval(P, e.l, st) IN
          IF Dead(a.st) THEN a
